@@ -66,6 +66,7 @@ enum Dom {
     NoReturn,
 }
 
+#[derive(Clone)]
 struct Entry {
     /// `<top-level module>::<fn>`; a `#variant` suffix distinguishes several invocations of one fn
     name: &'static str,
@@ -78,6 +79,8 @@ struct Entry {
     call: fn() -> Got,
     /// what the (suppressed) kernel would have written for a successful call
     fill: Option<fn(&[u64; 6])>,
+    /// generated sentinel entry: (parameter, label) — see `pick`
+    sel: Option<(&'static str, &'static str)>,
 }
 
 fn base_name(n: &str) -> &str {
@@ -157,139 +160,326 @@ fn fill_hid(a: &[u64; 6]) {
 
 macro_rules! e {
     ($name:expr, $nr:ident, $dom:ident, $ty:ident, $call:expr) => {
-        Entry { name: $name, nr: libc::$nr, dom: Dom::$dom, ty: Ty::$ty, infallible: false, call: $call, fill: None }
+        Entry { name: $name, nr: libc::$nr, dom: Dom::$dom, ty: Ty::$ty, infallible: false, call: $call, fill: None, sel: None }
     };
     ($name:expr, $nr:ident, $dom:ident, $ty:ident, $call:expr, fill $fill:expr) => {
-        Entry { name: $name, nr: libc::$nr, dom: Dom::$dom, ty: Ty::$ty, infallible: false, call: $call, fill: Some($fill) }
+        Entry { name: $name, nr: libc::$nr, dom: Dom::$dom, ty: Ty::$ty, infallible: false, call: $call, fill: Some($fill), sel: None }
     };
     ($name:expr, $nr:ident, $dom:ident, $ty:ident, $call:expr, infallible $fill:expr) => {
-        Entry { name: $name, nr: libc::$nr, dom: Dom::$dom, ty: Ty::$ty, infallible: true, call: $call, fill: $fill }
+        Entry { name: $name, nr: libc::$nr, dom: Dom::$dom, ty: Ty::$ty, infallible: true, call: $call, fill: $fill, sel: None }
     };
 }
 
+// ---------------------------------------------------------------------------
+// sentinel selection: a generated entry `<wrapper>#<param>=<label>` runs the wrapper's ordinary
+// invocation with ONE parameter replaced by a special value of its type.  The invocation
+// closures fetch every scalar argument through `pick`; the selector in force is thread-local.
+
+thread_local! {
+    static SEL: std::cell::Cell<Option<(&'static str, &'static str)>> = const { std::cell::Cell::new(None) };
+    static SEL_USED: std::cell::Cell<bool> = const { std::cell::Cell::new(false) };
+    static SEL_BAD: std::cell::Cell<bool> = const { std::cell::Cell::new(false) };
+}
+
+/// the value for parameter `p`: the default, or the option named by the selector in force
+fn pick<T: Copy>(p: &str, opts: &[(&str, T)], d: T) -> T {
+    match SEL.with(|s| s.get()) {
+        Some((sp, label)) if sp == p => {
+            SEL_USED.with(|u| u.set(true));
+            match opts.iter().find(|o| o.0 == label) {
+                Some(o) => o.1,
+                None => {
+                    SEL_BAD.with(|b| b.set(true));
+                    d
+                }
+            }
+        }
+        _ => d,
+    }
+}
+
+const L_SIGNED: &[&str] = &["-1", "0", "max", "min"];
+const L_UNSIGNED: &[&str] = &["0", "1", "max"];
+const L_BOOL: &[&str] = &["true", "false"];
+const L_FD: &[&str] = &["0", "max"];
+const L_NZ: &[&str] = &["1", "max"];
+const L_FLAGS: &[&str] = &["empty", "all"];
+const L_OPT3: &[&str] = &["none", "some0", "somemax"];
+const L_OPT2: &[&str] = &["none", "some"];
+const L_NONE: &[&str] = &[];
+
+/// The special values every parameter of this (normalised) type must be tried with.
+/// Empty: the type has no scalar sentinels (structures, strings; slices are covered by #len0 and the ladder).
+/// None: a type the harness has never seen — a machinery failure until it is classified here.
+fn labels_for(ty: &str) -> Option<&'static [&'static str]> {
+    Some(match ty {
+        "i32" | "PidT" | "OffT" => L_SIGNED,
+        "u32" | "u64" | "usize" | "UidT" | "GidT" => L_UNSIGNED,
+        "bool" => L_BOOL,
+        "Fd" | "NonNegativeI32" => L_FD,
+        "NonZeroUsize" => L_NZ,
+        "FutexFlags" | "IoUringEnterFlags" | "IoUringParamFlags" | "SocketFlags" | "WaitPidFlags" | "OpenFlags" | "Mode" | "MemoryProtection" | "MapAdditionalFlags"
+        | "Mountflags" | "RenameFlags" | "UnlinkFlags" | "CloneFlags" | "Whence" => L_FLAGS,
+        "Option<TimeSpec>" | "Option<&TimeSpec>" | "Option<usize>" | "Option<Fd>" => L_OPT3,
+        "Option<&SigSetT>" | "Option<*mut TimeSpec>" | "Option<&UnixStr>" => L_OPT2,
+        "EpollOp" => &["Add", "Mod", "Del"],
+        "SetAction" => &["NOW", "DRAIN", "FLUSH"],
+        "MapRequiredFlag" => &["MapShared", "MapSharedValidate", "MapPrivate"],
+        "CatchSignal" => &["Int", "Term", "Hup", "Segv", "Chld"],
+        "SaSignalaction" => &["Dfl", "Ign", "Handler", "SigAction"],
+        "ClockId" => &["realtime", "monotonic", "raw-1", "rawmax"],
+        "AddressFamily" => &["unix", "inet"],
+        "SocketOptions" => &["stream", "dgram-nonblock-cloexec"],
+        "FilesystemType" => &["tmpfs", "ext4"],
+        "*const*const u8" => &["null", "nonnull"],
+        "&TimeSpec" | "&mut TimeSpec" => &["zero", "max"],
+        "&AtomicU32" | "&mut IoUringParams" | "&SocketAddressInet" | "&SocketArgUnix" | "&mut MsgHdrBorrow" | "&SendDropGuard" | "&CloneArgs" | "&mut Clone3Args" | "&UnixStr"
+        | "&EpollEvent" | "&Termios" => L_NONE,
+        t if t.starts_with("&[") || t.starts_with("&mut[") => L_NONE,
+        _ => return None,
+    })
+}
+
+fn a_i32(p: &str, d: i32) -> i32 {
+    pick(p, &[("-1", -1), ("0", 0), ("max", i32::MAX), ("min", i32::MIN)], d)
+}
+fn a_i64(p: &str, d: i64) -> i64 {
+    pick(p, &[("-1", -1), ("0", 0), ("max", i64::MAX), ("min", i64::MIN)], d)
+}
+fn a_u32(p: &str, d: u32) -> u32 {
+    pick(p, &[("0", 0), ("1", 1), ("max", u32::MAX)], d)
+}
+fn a_u64(p: &str, d: u64) -> u64 {
+    pick(p, &[("0", 0), ("1", 1), ("max", u64::MAX)], d)
+}
+fn a_us(p: &str, d: usize) -> usize {
+    pick(p, &[("0", 0), ("1", 1), ("max", usize::MAX)], d)
+}
+fn a_b(p: &str, d: bool) -> bool {
+    pick(p, &[("true", true), ("false", false)], d)
+}
+fn a_fd(p: &str, d: Fd) -> Fd {
+    pick(p, &[("0", Fd::ZERO), ("max", Fd::MAX)], d)
+}
+fn a_nz(p: &str, d: usize) -> NonZeroUsize {
+    NonZeroUsize::new(pick(p, &[("1", 1), ("max", usize::MAX)], d)).unwrap()
+}
+/// bit-flag newtypes: no bit / every bit the representation allows (`nn`: over NonNegativeI32, so i32::MAX)
+fn a_fl<T: Copy>(p: &str, d: T, nn: bool) -> T {
+    let mut empty: T = unsafe { core::mem::zeroed() };
+    let mut all: T = unsafe { core::mem::zeroed() };
+    unsafe {
+        core::ptr::write_bytes(&mut empty as *mut T as *mut u8, 0, core::mem::size_of::<T>());
+        core::ptr::write_bytes(&mut all as *mut T as *mut u8, 0xff, core::mem::size_of::<T>());
+        if nn {
+            assert_eq!(core::mem::size_of::<T>(), 4);
+            *(&mut all as *mut T as *mut i32) = i32::MAX;
+        }
+    }
+    pick(p, &[("empty", empty), ("all", all)], d)
+}
+fn ts_max() -> TimeSpec {
+    TimeSpec::new(i64::MAX, 999_999_999)
+}
+fn a_ots(p: &str, d: Option<TimeSpec>) -> Option<TimeSpec> {
+    pick(p, &[("none", None), ("some0", Some(TimeSpec::new_zeroed())), ("somemax", Some(ts_max()))], d)
+}
+fn a_ts(p: &str, d: TimeSpec) -> TimeSpec {
+    pick(p, &[("zero", TimeSpec::new_zeroed()), ("max", ts_max())], d)
+}
+fn a_some(p: &str, d: bool) -> bool {
+    pick(p, &[("none", false), ("some", true)], d)
+}
+unsafe extern "C" fn dummy_handler(_: i32) {}
+unsafe extern "C" fn dummy_sigaction(_: i32, _: *mut rusl::process::SigInfo, _: *const core::ffi::c_void) {}
+
 fn table() -> Vec<Entry> {
     use rusl::unistd as u;
-    vec![
+    let base = vec![
         // ---- unistd
         e!("unistd::chdir", SYS_chdir, Zero, Unit, || unit(u::chdir(p1()))),
-        e!("unistd::close", SYS_close, Zero, Unit, || unit(u::close(fd_a()))),
-        e!("unistd::copy_file_range", SYS_copy_file_range, Count, U64, || cnt(u::copy_file_range(fd_a(), 0, fd_b(), 0, 16))),
-        e!("unistd::dup2", SYS_dup3, Id, Unit, || unit(u::dup2(fd_a(), fd_b()))),
-        e!("unistd::dup3", SYS_dup3, Id, Unit, || unit(u::dup3(fd_a(), fd_b(), true))),
-        e!("unistd::fcntl_get_file_status", SYS_fcntl, Id, I32, || num(u::fcntl_get_file_status(fd_a()).map(|f| f.bits().value()))),
-        e!("unistd::fcntl_set_file_status", SYS_fcntl, Zero, Unit, || unit(u::fcntl_set_file_status(fd_a(), OpenFlags::O_NONBLOCK))),
-        e!("unistd::fcntl_dupfd_cloexec", SYS_fcntl, Id, I32, || fdr(u::fcntl_dupfd_cloexec(fd_a(), fd_b()))),
-        e!("unistd::fcntl_set_cloexec", SYS_fcntl, Zero, Unit, || unit(u::fcntl_set_cloexec(fd_a(), true))),
+        e!("unistd::close", SYS_close, Zero, Unit, || unit(u::close(a_fd("fd", fd_a())))),
+        e!("unistd::copy_file_range", SYS_copy_file_range, Count, U64, || {
+            cnt(u::copy_file_range(a_fd("src_fd", fd_a()), a_u64("src_offset", 0), a_fd("dest_fd", fd_b()), a_u64("dest_offset", 0), a_us("len", 16)))
+        }),
+        e!("unistd::dup2", SYS_dup3, Id, Unit, || unit(u::dup2(a_fd("old", fd_a()), a_fd("new", fd_b())))),
+        e!("unistd::dup3", SYS_dup3, Id, Unit, || unit(u::dup3(a_fd("old", fd_a()), a_fd("new", fd_b()), a_b("cloexec", true)))),
+        e!("unistd::fcntl_get_file_status", SYS_fcntl, Id, I32, || num(u::fcntl_get_file_status(a_fd("fd", fd_a())).map(|f| f.bits().value()))),
+        e!("unistd::fcntl_set_file_status", SYS_fcntl, Zero, Unit, || {
+            unit(u::fcntl_set_file_status(a_fd("fd", fd_a()), a_fl("flag", OpenFlags::O_NONBLOCK, true)))
+        }),
+        e!("unistd::fcntl_dupfd_cloexec", SYS_fcntl, Id, I32, || fdr(u::fcntl_dupfd_cloexec(a_fd("fd", fd_a()), a_fd("min", fd_b())))),
+        e!("unistd::fcntl_set_cloexec", SYS_fcntl, Zero, Unit, || unit(u::fcntl_set_cloexec(a_fd("fd", fd_a()), a_b("cloexec", true)))),
         e!("unistd::get_dents", SYS_getdents64, Count, U64, || {
             let mut b = [0u8; 64];
-            cnt(u::get_dents(fd_a(), &mut b))
+            cnt(u::get_dents(a_fd("fd", fd_a()), &mut b))
         }),
         e!("unistd::get_uid", SYS_getuid, Id, U32, || num(u::get_uid())),
-        e!("unistd::mkdir", SYS_mkdirat, Zero, Unit, || unit(u::mkdir(p1(), mode()))),
-        e!("unistd::mkdir_at", SYS_mkdirat, Zero, Unit, || unit(u::mkdir_at(fd_a(), p1(), mode()))),
+        e!("unistd::mkdir", SYS_mkdirat, Zero, Unit, || unit(u::mkdir(p1(), a_fl("mode", mode(), false)))),
+        e!("unistd::mkdir_at", SYS_mkdirat, Zero, Unit, || unit(u::mkdir_at(a_fd("dir_fd", fd_a()), p1(), a_fl("mode", mode(), false)))),
         e!("unistd::mmap", SYS_mmap, Addr, U64, || {
             cnt(unsafe {
                 u::mmap(
-                    None,
-                    NonZeroUsize::new(4096).unwrap(),
-                    MemoryProtection::PROT_READ,
-                    MapRequiredFlag::MapPrivate,
-                    MapAdditionalFlags::MAP_ANONYMOUS,
-                    None,
-                    0,
+                    pick("addr", &[("none", None), ("some0", Some(0)), ("somemax", Some(usize::MAX))], None),
+                    a_nz("length", 4096),
+                    a_fl("memory_protection", MemoryProtection::PROT_READ, false),
+                    pick(
+                        "required_flag",
+                        &[("MapShared", MapRequiredFlag::MapShared), ("MapSharedValidate", MapRequiredFlag::MapSharedValidate), ("MapPrivate", MapRequiredFlag::MapPrivate)],
+                        MapRequiredFlag::MapPrivate,
+                    ),
+                    a_fl("additional_flags", MapAdditionalFlags::MAP_ANONYMOUS, false),
+                    pick("fd", &[("none", None), ("some0", Some(Fd::ZERO)), ("somemax", Some(Fd::MAX))], None),
+                    a_i64("offset", 0),
                 )
             })
         }),
-        e!("unistd::munmap", SYS_munmap, Zero, Unit, || unit(unsafe { u::munmap(0x7000_0000_0000, NonZeroUsize::new(4096).unwrap()) })),
-        e!("unistd::mount", SYS_mount, Zero, Unit, || unit(u::mount(p1(), p2(), FilesystemType::TMPFS, Mountflags::MS_RDONLY, None))),
+        e!("unistd::munmap", SYS_munmap, Zero, Unit, || unit(unsafe { u::munmap(a_us("addr", 0x7000_0000_0000), a_nz("length", 4096)) })),
+        e!("unistd::mount", SYS_mount, Zero, Unit, || {
+            let data = if a_some("data", false) { Some(unix_lit!("size=1m")) } else { None };
+            unit(u::mount(
+                p1(),
+                p2(),
+                pick("fs_type", &[("tmpfs", FilesystemType::TMPFS), ("ext4", FilesystemType::EXT4)], FilesystemType::TMPFS),
+                a_fl("flags", Mountflags::MS_RDONLY, false),
+                data,
+            ))
+        }),
         e!("unistd::mount#data", SYS_mount, Zero, Unit, || {
             unit(u::mount(p1(), p2(), FilesystemType::TMPFS, Mountflags::MS_RDONLY, Some(unix_lit!("size=1m"))))
         }),
         e!("unistd::unmount", SYS_umount2, Zero, Unit, || unit(u::unmount(p1()))),
-        e!("unistd::open_raw", SYS_openat, Id, I32, || fdr(unsafe { u::open_raw(p1().as_ptr() as usize, OpenFlags::O_RDONLY) })),
-        e!("unistd::open", SYS_openat, Id, I32, || fdr(u::open(p1(), OpenFlags::O_RDONLY))),
-        e!("unistd::open_mode", SYS_openat, Id, I32, || fdr(u::open_mode(p1(), OpenFlags::O_RDONLY, mode()))),
-        e!("unistd::open_at", SYS_openat, Id, I32, || fdr(u::open_at(fd_a(), p1(), OpenFlags::O_RDONLY))),
-        e!("unistd::open_at_mode", SYS_openat, Id, I32, || fdr(u::open_at_mode(fd_a(), p1(), OpenFlags::O_RDONLY, mode()))),
+        e!("unistd::open_raw", SYS_openat, Id, I32, || {
+            fdr(unsafe { u::open_raw(a_us("name_addr", p1().as_ptr() as usize), a_fl("flags", OpenFlags::O_RDONLY, true)) })
+        }),
+        e!("unistd::open", SYS_openat, Id, I32, || fdr(u::open(p1(), a_fl("flags", OpenFlags::O_RDONLY, true)))),
+        e!("unistd::open_mode", SYS_openat, Id, I32, || fdr(u::open_mode(p1(), a_fl("flags", OpenFlags::O_RDONLY, true), a_fl("mode", mode(), false)))),
+        e!("unistd::open_at", SYS_openat, Id, I32, || fdr(u::open_at(a_fd("dir", fd_a()), p1(), a_fl("flags", OpenFlags::O_RDONLY, true)))),
+        e!("unistd::open_at_mode", SYS_openat, Id, I32, || {
+            fdr(u::open_at_mode(a_fd("dir", fd_a()), p1(), a_fl("flags", OpenFlags::O_RDONLY, true), a_fl("mode", mode(), false)))
+        }),
         e!("unistd::pipe", SYS_pipe2, Zero, Unit, || unit(u::pipe()), fill fill_pipe),
-        e!("unistd::pipe2", SYS_pipe2, Zero, Unit, || unit(u::pipe2(OpenFlags::O_CLOEXEC)), fill fill_pipe),
+        e!("unistd::pipe2", SYS_pipe2, Zero, Unit, || unit(u::pipe2(a_fl("flags", OpenFlags::O_CLOEXEC, true))), fill fill_pipe),
         e!("unistd::read", SYS_read, Count, U64, || {
             let mut b = [0u8; 8];
-            cnt(u::read(fd_a(), &mut b))
+            cnt(u::read(a_fd("fd", fd_a()), &mut b))
         }),
         e!("unistd::readv", SYS_readv, Count, U64, || {
             let mut b = [0u8; 8];
             let mut io = [IoSliceMut::new(&mut b)];
-            cnt(u::readv(fd_a(), &mut io))
+            cnt(u::readv(a_fd("fd", fd_a()), &mut io))
         }),
         e!("unistd::rename", SYS_renameat2, Zero, Unit, || unit(u::rename(p1(), p2()))),
-        e!("unistd::rename_flags", SYS_renameat2, Zero, Unit, || unit(u::rename_flags(p1(), p2(), RenameFlags::empty()))),
-        e!("unistd::rename_at", SYS_renameat2, Zero, Unit, || unit(u::rename_at(fd_a(), p1(), fd_b(), p2()))),
-        e!("unistd::rename_at2", SYS_renameat2, Zero, Unit, || unit(u::rename_at2(fd_a(), p1(), fd_b(), p2(), RenameFlags::empty()))),
-        e!("unistd::lseek", SYS_lseek, Off, I64, || num(u::lseek(fd_a(), 0, u::Whence::SET))),
-        e!("unistd::setgid", SYS_setgid, Zero, Unit, || unit(u::setgid(1000))),
-        e!("unistd::setpgid", SYS_setpgid, Zero, Unit, || unit(u::setpgid(0, 0))),
+        e!("unistd::rename_flags", SYS_renameat2, Zero, Unit, || unit(u::rename_flags(p1(), p2(), a_fl("flags", RenameFlags::empty(), false)))),
+        e!("unistd::rename_at", SYS_renameat2, Zero, Unit, || unit(u::rename_at(a_fd("old_dir_fd", fd_a()), p1(), a_fd("new_dir_fd", fd_b()), p2()))),
+        e!("unistd::rename_at2", SYS_renameat2, Zero, Unit, || {
+            unit(u::rename_at2(a_fd("old_dir_fd", fd_a()), p1(), a_fd("new_dir_fd", fd_b()), p2(), a_fl("flags", RenameFlags::empty(), false)))
+        }),
+        e!("unistd::lseek", SYS_lseek, Off, I64, || num(u::lseek(a_fd("fd", fd_a()), a_i64("off_t", 0), a_fl("whence", u::Whence::SET, true)))),
+        e!("unistd::setgid", SYS_setgid, Zero, Unit, || unit(u::setgid(a_u32("gid", 1000)))),
+        e!("unistd::setpgid", SYS_setpgid, Zero, Unit, || unit(u::setpgid(a_i32("set_pid", 0), a_i32("grp_pid", 0)))),
         e!("unistd::setsid", SYS_setsid, Id, Unit, || unit(u::setsid())),
-        e!("unistd::setuid", SYS_setuid, Zero, Unit, || unit(u::setuid(1000))),
+        e!("unistd::setuid", SYS_setuid, Zero, Unit, || unit(u::setuid(a_u32("uid", 1000)))),
         e!("unistd::stat", SYS_newfstatat, Zero, Unit, || unit(u::stat(p1())), fill fill_stat),
-        e!("unistd::statat", SYS_newfstatat, Zero, Unit, || unit(u::statat(fd_a(), p1())), fill fill_stat),
-        e!("unistd::stat_fd", SYS_newfstatat, Zero, Unit, || unit(u::stat_fd(fd_a())), fill fill_stat),
-        e!("unistd::swapon", SYS_swapon, Zero, Unit, || unit(u::swapon(p1(), 0))),
+        e!("unistd::statat", SYS_newfstatat, Zero, Unit, || unit(u::statat(a_fd("dir_fd", fd_a()), p1())), fill fill_stat),
+        e!("unistd::stat_fd", SYS_newfstatat, Zero, Unit, || unit(u::stat_fd(a_fd("dir_fd", fd_a()))), fill fill_stat),
+        e!("unistd::swapon", SYS_swapon, Zero, Unit, || unit(u::swapon(p1(), a_i32("flags", 0)))),
         e!("unistd::uname", SYS_uname, Zero, Unit, || unit(u::uname()), fill fill_uname),
         e!("unistd::unlink", SYS_unlinkat, Zero, Unit, || unit(u::unlink(p1()))),
-        e!("unistd::unlink_flags", SYS_unlinkat, Zero, Unit, || unit(u::unlink_flags(p1(), u::UnlinkFlags::empty()))),
-        e!("unistd::unlink_at", SYS_unlinkat, Zero, Unit, || unit(u::unlink_at(fd_a(), p1(), u::UnlinkFlags::at_removedir()))),
-        e!("unistd::rmdir", SYS_unlinkat, Zero, Unit, || unit(u::rmdir(fd_a()))),
-        e!("unistd::unshare", SYS_unshare, Zero, Unit, || unit(u::unshare(CloneFlags::CLONE_FS))),
-        e!("unistd::write", SYS_write, Count, U64, || cnt(u::write(fd_a(), b"x"))),
-        e!("unistd::writev", SYS_writev, Count, U64, || cnt(u::writev(fd_a(), &[IoSlice::new(b"x")]))),
-        // ---- network
-        e!("network::accept_unix", SYS_accept4, Id, I32, || fdr(rusl::network::accept_unix(fd_a(), SocketFlags::SOCK_CLOEXEC).map(|x| x.0))),
-        e!("network::accept_inet", SYS_accept4, Id, I32, || fdr(rusl::network::accept_inet(fd_a(), SocketFlags::SOCK_CLOEXEC).map(|x| x.0))),
-        e!("network::bind_unix", SYS_bind, Zero, Unit, || unit(rusl::network::bind_unix(fd_a(), &sock_unix()))),
-        e!("network::bind_inet", SYS_bind, Zero, Unit, || unit(rusl::network::bind_inet(fd_a(), &sock_inet()))),
-        e!("network::connect_unix", SYS_connect, Zero, Unit, || unit(rusl::network::connect_unix(fd_a(), &sock_unix()))),
-        e!("network::connect_inet", SYS_connect, Zero, Unit, || unit(rusl::network::connect_inet(fd_a(), &sock_inet()))),
-        e!("network::listen", SYS_listen, Zero, Unit, || unit(rusl::network::listen(fd_a(), NonNegativeI32::try_new(8).unwrap()))),
-        e!("network::socket", SYS_socket, Id, I32, || {
-            fdr(rusl::network::socket(AddressFamily::AF_UNIX, SocketOptions::new(SocketType::SOCK_STREAM, SocketFlags::SOCK_CLOEXEC), 0))
+        e!("unistd::unlink_flags", SYS_unlinkat, Zero, Unit, || unit(u::unlink_flags(p1(), a_fl("flags", u::UnlinkFlags::empty(), false)))),
+        e!("unistd::unlink_at", SYS_unlinkat, Zero, Unit, || {
+            unit(u::unlink_at(a_fd("dir_fd", fd_a()), p1(), a_fl("flags", u::UnlinkFlags::at_removedir(), false)))
         }),
-        e!("network::get_unix_sock_name", SYS_getsockname, Zero, Unit, || unit(rusl::network::get_unix_sock_name(fd_a()))),
-        e!("network::get_inet_sock_name", SYS_getsockname, Zero, Unit, || unit(rusl::network::get_inet_sock_name(fd_a()))),
+        e!("unistd::rmdir", SYS_unlinkat, Zero, Unit, || unit(u::rmdir(a_fd("dir_fd", fd_a())))),
+        e!("unistd::unshare", SYS_unshare, Zero, Unit, || unit(u::unshare(a_fl("flags", CloneFlags::CLONE_FS, false)))),
+        e!("unistd::write", SYS_write, Count, U64, || cnt(u::write(a_fd("fd", fd_a()), b"x"))),
+        e!("unistd::writev", SYS_writev, Count, U64, || cnt(u::writev(a_fd("fd", fd_a()), &[IoSlice::new(b"x")]))),
+        // ---- network
+        e!("network::accept_unix", SYS_accept4, Id, I32, || {
+            fdr(rusl::network::accept_unix(a_fd("sock_fd", fd_a()), a_fl("flags", SocketFlags::SOCK_CLOEXEC, false)).map(|x| x.0))
+        }),
+        e!("network::accept_inet", SYS_accept4, Id, I32, || {
+            fdr(rusl::network::accept_inet(a_fd("sock_fd", fd_a()), a_fl("flags", SocketFlags::SOCK_CLOEXEC, false)).map(|x| x.0))
+        }),
+        e!("network::bind_unix", SYS_bind, Zero, Unit, || unit(rusl::network::bind_unix(a_fd("sock_fd", fd_a()), &sock_unix()))),
+        e!("network::bind_inet", SYS_bind, Zero, Unit, || unit(rusl::network::bind_inet(a_fd("sock_fd", fd_a()), &sock_inet()))),
+        e!("network::connect_unix", SYS_connect, Zero, Unit, || unit(rusl::network::connect_unix(a_fd("sock_fd", fd_a()), &sock_unix()))),
+        e!("network::connect_inet", SYS_connect, Zero, Unit, || unit(rusl::network::connect_inet(a_fd("sock_fd", fd_a()), &sock_inet()))),
+        e!("network::listen", SYS_listen, Zero, Unit, || {
+            unit(rusl::network::listen(a_fd("sock_fd", fd_a()), a_fd("backlog", NonNegativeI32::try_new(8).unwrap())))
+        }),
+        e!("network::socket", SYS_socket, Id, I32, || {
+            fdr(rusl::network::socket(
+                pick("domain", &[("unix", AddressFamily::AF_UNIX), ("inet", AddressFamily::AF_INET)], AddressFamily::AF_UNIX),
+                pick(
+                    "options",
+                    &[
+                        ("stream", SocketOptions::new(SocketType::SOCK_STREAM, SocketFlags::empty())),
+                        ("dgram-nonblock-cloexec", SocketOptions::new(SocketType::SOCK_DGRAM, SocketFlags::SOCK_NONBLOCK | SocketFlags::SOCK_CLOEXEC)),
+                    ],
+                    SocketOptions::new(SocketType::SOCK_STREAM, SocketFlags::SOCK_CLOEXEC),
+                ),
+                a_i32("protocol", 0),
+            ))
+        }),
+        e!("network::get_unix_sock_name", SYS_getsockname, Zero, Unit, || unit(rusl::network::get_unix_sock_name(a_fd("sock_fd", fd_a())))),
+        e!("network::get_inet_sock_name", SYS_getsockname, Zero, Unit, || unit(rusl::network::get_inet_sock_name(a_fd("sock_fd", fd_a())))),
         e!("network::sendmsg", SYS_sendmsg, Count, U64, || {
             let io = [IoSlice::new(b"x")];
             let g = MsgHdrBorrow::create_send(None, &io, None);
-            cnt(rusl::network::sendmsg(fd_a(), &g, 0))
+            cnt(rusl::network::sendmsg(a_fd("sock_fd", fd_a()), &g, a_i32("flags", 0)))
         }),
         e!("network::recvmsg", SYS_recvmsg, Count, U64, || {
             let mut b = [0u8; 8];
             let mut io = [IoSliceMut::new(&mut b)];
             let mut h = MsgHdrBorrow::create_recv(&mut io, None);
-            cnt(rusl::network::recvmsg(fd_a(), &mut h, 0))
+            cnt(rusl::network::recvmsg(a_fd("sock_fd", fd_a()), &mut h, a_i32("flags", 0)))
         }),
         // ---- process
         e!("process::fork", SYS_fork, Id, I32, || num(unsafe { rusl::process::fork() })),
         e!("process::clone", SYS_clone, Id, I32, || num(unsafe { rusl::process::clone(&CloneArgs::new(CloneFlags::empty())) })),
         e!("process::clone3", SYS_clone3, Id, U64, || num(unsafe { rusl::process::clone3(&mut Clone3Args::new(CloneFlags::empty())) })),
-        e!("process::execve", SYS_execve, NoReturn, Unit, || unit(unsafe { rusl::process::execve(p1(), core::ptr::null(), core::ptr::null()) })),
+        e!("process::execve", SYS_execve, NoReturn, Unit, || {
+            let one: [*const u8; 1] = [core::ptr::null()];
+            let opts = [("null", core::ptr::null()), ("nonnull", one.as_ptr())];
+            unit(unsafe { rusl::process::execve(p1(), pick("arg_v", &opts, core::ptr::null()), pick("env_p", &opts, core::ptr::null())) })
+        }),
         e!("process::get_pid", SYS_getpid, Id, I32, || Got::Ok(Some(rusl::process::get_pid() as i128)), infallible None),
         e!("process::add_signal_action", SYS_rt_sigaction, Zero, Unit, || {
-            unit(unsafe { rusl::process::add_signal_action(rusl::process::CatchSignal::Hup, rusl::process::SaSignalaction::Dfl) })
+            use rusl::process::{CatchSignal as C, SaSignalaction as A};
+            let sig = match pick("signal", &[("Int", 0), ("Term", 1), ("Hup", 2), ("Segv", 3), ("Chld", 4)], 2) {
+                0 => C::Int,
+                1 => C::Term,
+                2 => C::Hup,
+                3 => C::Segv,
+                _ => C::Chld,
+            };
+            let act = pick("sigaction", &[("Dfl", A::Dfl), ("Ign", A::Ign), ("Handler", A::Handler(dummy_handler)), ("SigAction", A::SigAction(dummy_sigaction))], A::Dfl);
+            unit(unsafe { rusl::process::add_signal_action(sig, act) })
         }),
-        e!("process::wait_pid", SYS_wait4, Id, I32, || num(rusl::process::wait_pid(-1, WaitPidFlags::WNOHANG).map(|w| w.pid))),
+        e!("process::wait_pid", SYS_wait4, Id, I32, || {
+            num(rusl::process::wait_pid(a_i32("pid", -1), a_fl("flags", WaitPidFlags::WNOHANG, false)).map(|w| w.pid))
+        }),
         // ---- select
-        e!("select::epoll_create", SYS_epoll_create1, Id, I32, || fdr(rusl::select::epoll_create(true))),
+        e!("select::epoll_create", SYS_epoll_create1, Id, I32, || fdr(rusl::select::epoll_create(a_b("cloexec", true)))),
         e!("select::epoll_ctl", SYS_epoll_ctl, Zero, Unit, || {
-            unit(rusl::select::epoll_ctl(fd_a(), EpollOp::Add, fd_b(), &EpollEvent::new(7, EpollEventMask::EPOLLIN)))
+            let op = match pick("epoll_op", &[("Add", 0), ("Mod", 1), ("Del", 2)], 0) {
+                0 => EpollOp::Add,
+                1 => EpollOp::Mod,
+                _ => EpollOp::Del,
+            };
+            unit(rusl::select::epoll_ctl(a_fd("epoll_fd", fd_a()), op, a_fd("fd", fd_b()), &EpollEvent::new(7, EpollEventMask::EPOLLIN)))
         }),
-        e!("select::epoll_del", SYS_epoll_ctl, Zero, Unit, || unit(rusl::select::epoll_del(fd_a(), fd_b()))),
+        e!("select::epoll_del", SYS_epoll_ctl, Zero, Unit, || unit(rusl::select::epoll_del(a_fd("epoll_fd", fd_a()), a_fd("fd", fd_b())))),
         e!("select::epoll_wait", SYS_epoll_pwait, Count, U64, || {
             let mut ev = [EpollEvent::new(0, EpollEventMask::empty()); 2];
-            cnt(rusl::select::epoll_wait(fd_a(), &mut ev, 0))
+            cnt(rusl::select::epoll_wait(a_fd("epoll_fd", fd_a()), &mut ev, a_i32("timeout_millis", 0)))
         }),
         e!("select::ppoll", SYS_ppoll, Count, U64, || {
             let mut pf = [PollFd::new(fd_a(), PollEvents::POLLIN)];
-            cnt(rusl::select::ppoll(&mut pf, Some(&TimeSpec::new_zeroed()), None))
+            let ts = a_ots("timespec", Some(TimeSpec::new_zeroed()));
+            let ss = SigSetT::default();
+            cnt(rusl::select::ppoll(&mut pf, ts.as_ref(), if a_some("sigset", false) { Some(&ss) } else { None }))
         }),
         // ---- time
         e!("time::clock_get_real_time", SYS_clock_gettime, Zero, Unit, || {
@@ -300,56 +490,82 @@ fn table() -> Vec<Entry> {
             let _ = rusl::time::clock_get_monotonic_time();
             Got::Ok(None)
         }, infallible Some(fill_ts)),
-        e!("time::clock_get_time", SYS_clock_gettime, Zero, Unit, || unit(rusl::time::clock_get_time(ClockId::CLOCK_MONOTONIC)), fill fill_ts),
-        e!("time::nanosleep", SYS_nanosleep, Zero, Unit, || unit(rusl::time::nanosleep(&TimeSpec::new(0, 1), None))),
+        e!("time::clock_get_time", SYS_clock_gettime, Zero, Unit, || {
+            let id = pick(
+                "clock_id",
+                &[("realtime", ClockId::CLOCK_REALTIME), ("monotonic", ClockId::CLOCK_MONOTONIC), ("raw-1", ClockId::from_raw(-1)), ("rawmax", ClockId::from_raw(i32::MAX))],
+                ClockId::CLOCK_MONOTONIC,
+            );
+            unit(rusl::time::clock_get_time(id))
+        }, fill fill_ts),
+        e!("time::nanosleep", SYS_nanosleep, Zero, Unit, || {
+            let mut rem = TimeSpec::new_zeroed();
+            let req = a_ts("try_sleep", TimeSpec::new(0, 1));
+            unit(rusl::time::nanosleep(&req, if a_some("rem", false) { Some(&mut rem as *mut TimeSpec) } else { None }))
+        }),
         e!("time::nanosleep#rem", SYS_nanosleep, Zero, Unit, || {
             let mut rem = TimeSpec::new_zeroed();
             unit(rusl::time::nanosleep(&TimeSpec::new(0, 1), Some(&mut rem as *mut TimeSpec)))
         }),
-        e!("time::nanosleep_same_ptr", SYS_nanosleep, Zero, Unit, || unit(rusl::time::nanosleep_same_ptr(&mut TimeSpec::new(0, 1)))),
+        e!("time::nanosleep_same_ptr", SYS_nanosleep, Zero, Unit, || {
+            let mut req = a_ts("try_sleep", TimeSpec::new(0, 1));
+            unit(rusl::time::nanosleep_same_ptr(&mut req))
+        }),
         // ---- futex
         e!("futex::futex_wait", SYS_futex, Zero, Unit, || {
             let a = AtomicU32::new(0);
-            unit(rusl::futex::futex_wait(&a, 1, FutexFlags::PRIVATE, Some(TimeSpec::new(0, 1000))))
+            unit(rusl::futex::futex_wait(&a, a_u32("val", 1), a_fl("flags", FutexFlags::PRIVATE, true), a_ots("timeout", Some(TimeSpec::new(0, 1000)))))
         }),
         e!("futex::futex_wake", SYS_futex, Count, U64, || {
             let a = AtomicU32::new(0);
-            cnt(rusl::futex::futex_wake(&a, 1))
+            cnt(rusl::futex::futex_wake(&a, a_i32("num_waiters", 1)))
         }),
         // ---- io_uring
         e!("io_uring::io_uring_setup", SYS_io_uring_setup, Id, I32, || {
             let mut p = IoUringParams::new(IoUringParamFlags::empty(), 0, 0);
-            fdr(rusl::io_uring::io_uring_setup(8, &mut p))
+            fdr(rusl::io_uring::io_uring_setup(a_u32("entries", 8), &mut p))
         }),
-        e!("io_uring::io_uring_register_files", SYS_io_uring_register, Zero, Unit, || unit(rusl::io_uring::io_uring_register_files(fd_a(), &[fd_b()]))),
+        e!("io_uring::io_uring_register_files", SYS_io_uring_register, Zero, Unit, || {
+            unit(rusl::io_uring::io_uring_register_files(a_fd("uring_fd", fd_a()), &[fd_b()]))
+        }),
         e!("io_uring::io_uring_register_io_slices", SYS_io_uring_register, Zero, Unit, || {
             let mut b = [0u8; 8];
             let io = [IoSliceMut::new(&mut b)];
-            unit(rusl::io_uring::io_uring_register_io_slices(fd_a(), &io))
+            unit(rusl::io_uring::io_uring_register_io_slices(a_fd("uring_fd", fd_a()), &io))
         }),
         e!("io_uring::io_uring_register_buffers", SYS_io_uring_register, Zero, Unit, || {
             let mut b = [0u8; 8];
             let io = [IoSliceMut::new(&mut b)];
-            unit(unsafe { rusl::io_uring::io_uring_register_buffers(fd_a(), &io) })
+            unit(unsafe { rusl::io_uring::io_uring_register_buffers(a_fd("uring_fd", fd_a()), &io) })
         }),
         e!("io_uring::io_uring_enter", SYS_io_uring_enter, Count, U64, || {
-            cnt(rusl::io_uring::io_uring_enter(fd_a(), 1, 0, IoUringEnterFlags::IORING_ENTER_GETEVENTS))
+            cnt(rusl::io_uring::io_uring_enter(
+                a_fd("uring_fd", fd_a()),
+                a_u32("to_submit", 1),
+                a_u32("min_complete", 0),
+                a_fl("flags", IoUringEnterFlags::IORING_ENTER_GETEVENTS, false),
+            ))
         }),
         // ---- ioctl and its thin callers
-        e!("ioctl::ioctl", SYS_ioctl, Count, U64, || cnt(unsafe { rusl::ioctl::ioctl(fd_a(), 0x5401, 0) })),
-        e!("termios::tcgetattr", SYS_ioctl, Zero, Unit, || unit(rusl::termios::tcgetattr(fd_a())), fill fill_termios),
+        e!("ioctl::ioctl", SYS_ioctl, Count, U64, || cnt(unsafe { rusl::ioctl::ioctl(a_fd("fd", fd_a()), a_us("b", 0x5401), a_us("c", 0)) })),
+        e!("termios::tcgetattr", SYS_ioctl, Zero, Unit, || unit(rusl::termios::tcgetattr(a_fd("fd", fd_a()))), fill fill_termios),
         e!("termios::tcsetattr", SYS_ioctl, Zero, Unit, || {
             let t: Termios = unsafe { core::mem::zeroed() };
-            unit(rusl::termios::tcsetattr(fd_a(), SetAction::NOW, &t))
+            let act = match pick("action", &[("NOW", 0), ("DRAIN", 1), ("FLUSH", 2)], 0) {
+                0 => SetAction::NOW,
+                1 => SetAction::DRAIN,
+                _ => SetAction::FLUSH,
+            };
+            unit(rusl::termios::tcsetattr(a_fd("fd", fd_a()), act, &t))
         }),
         e!("usb::bulk_transfer", SYS_ioctl, Count, U64, || {
             let mut b = [0u8; 8];
-            cnt(rusl::usb::bulk_transfer(fd_a(), 1, &mut b, 10))
+            cnt(rusl::usb::bulk_transfer(a_fd("fd", fd_a()), a_u32("endpoint", 1), &mut b, a_u32("timeout", 10)))
         }),
-        e!("usb::claim_interface", SYS_ioctl, Zero, Unit, || unit(rusl::usb::claim_interface(fd_a(), 0))),
-        e!("usb::reset_usb_device", SYS_ioctl, Zero, Unit, || unit(rusl::usb::reset_usb_device(fd_a()))),
-        e!("usb::release_interface", SYS_ioctl, Zero, Unit, || unit(rusl::usb::release_interface(fd_a(), 0))),
-        e!("hidio::get_hid_dev_dev_info", SYS_ioctl, Zero, Unit, || unit(rusl::hidio::get_hid_dev_dev_info(fd_a())), fill fill_hid),
+        e!("usb::claim_interface", SYS_ioctl, Zero, Unit, || unit(rusl::usb::claim_interface(a_fd("fd", fd_a()), a_u32("interface_number", 0)))),
+        e!("usb::reset_usb_device", SYS_ioctl, Zero, Unit, || unit(rusl::usb::reset_usb_device(a_fd("fd", fd_a())))),
+        e!("usb::release_interface", SYS_ioctl, Zero, Unit, || unit(rusl::usb::release_interface(a_fd("fd", fd_a()), a_u32("interface_number", 0)))),
+        e!("hidio::get_hid_dev_dev_info", SYS_ioctl, Zero, Unit, || unit(rusl::hidio::get_hid_dev_dev_info(a_fd("fd", fd_a()))), fill fill_hid),
         // ---- ARGUMENT SHAPES: equal arguments (same descriptor twice, same path twice, src == dst)
         e!("unistd::dup2#eq", SYS_dup3, Id, Unit, || unit(u::dup2(fd_a(), fd_a()))),
         e!("unistd::dup3#eq", SYS_dup3, Id, Unit, || unit(u::dup3(fd_a(), fd_a(), true))),
@@ -404,7 +620,27 @@ fn table() -> Vec<Entry> {
             unit(unsafe { rusl::io_uring::io_uring_register_buffers(fd_a(), &[]) })
         }),
         e!("usb::bulk_transfer#len0", SYS_ioctl, Count, U64, || cnt(rusl::usb::bulk_transfer(fd_a(), 1, &mut [], 10))),
-    ]
+    ];
+    // one generated entry per (scalar parameter, special value of its type)
+    let mut all = Vec::with_capacity(base.len() * 4);
+    for e in base {
+        let plain = !e.name.contains('#');
+        let name = e.name;
+        all.push(e.clone());
+        if !plain {
+            continue;
+        }
+        let Some(ps) = SCANNED_PARAMS.iter().find(|s| scanned_key(s.0, s.1) == name) else { continue };
+        for (pname, pty) in ps.2 {
+            for label in labels_for(pty).unwrap_or(L_NONE) {
+                let mut v = e.clone();
+                v.name = Box::leak(format!("{name}#{pname}={label}").into_boxed_str());
+                v.sel = Some((pname, label));
+                all.push(v);
+            }
+        }
+    }
+    all
 }
 
 /// Scanned functions that deliberately have no invocation entry.
@@ -554,7 +790,9 @@ fn spec_of(e: &Entry) -> Spec {
 fn one_case(e: &Entry, script: &[i64], r: &mut Report, verbose: bool) {
     let call = e.call;
     let horizon = if script.len() > 1 { script.len() + 7 } else { HORIZON };
+    SEL.with(|s| s.set(e.sel));
     judge(&spec_of(e), script, horizon, &|| (call(), Vec::new()), r, verbose);
+    SEL.with(|s| s.set(None));
 }
 
 /// Runs the invocation under the forced-value plan and applies the oracle.
@@ -1068,6 +1306,15 @@ fn run_wrapper(e: &Entry, thorough: bool) -> Report {
             unsafe { libc::alarm(20) };
         }
         one_case(e, &[v], &mut r, false);
+        if i == 0 {
+            if let Some((p, l)) = e.sel {
+                // the invocation must really have fetched parameter `p` through `pick` and known the label
+                if !SEL_USED.with(|u| u.get()) || SEL_BAD.with(|b| b.get()) {
+                    r.cap(format!("harness: entry {} does not implement the special value {l} of parameter {p}", e.name));
+                    r.note("machinery-failure");
+                }
+            }
+        }
     }
     if may_retry_ebusy(e.name) {
         unsafe { libc::alarm(60) };
@@ -1117,6 +1364,7 @@ fn c09(args: &Args) -> Report {
     let (cov, exc, missing, ambiguous) = completeness(&tab);
     let n_entries = tab.len();
     let table_names: Vec<&'static str> = tab.iter().map(|e| e.name).collect();
+    let tab_sel_count = tab.iter().filter(|e| e.sel.is_some()).count();
     let mut items = Vec::new();
     let thorough = args.thorough;
     let mut n_cases = 0usize;
@@ -1153,6 +1401,33 @@ fn c09(args: &Args) -> Report {
             m
         })
         .collect();
+    // sentinel dimension: every scalar parameter of every covered wrapper × every special value of its type
+    let mut sentinel_missing: Vec<String> = Vec::new();
+    let mut unknown_types: Vec<String> = Vec::new();
+    let mut n_sentinel_params = 0usize;
+    for (m, f, ps) in SCANNED_PARAMS {
+        let k = scanned_key(m, f);
+        if EXCLUDED.iter().any(|x| x.0 == k) {
+            continue;
+        }
+        for (pn, pt) in *ps {
+            match labels_for(pt) {
+                None => unknown_types.push(format!("{k}({pn}: {pt})")),
+                Some(ls) => {
+                    if !ls.is_empty() {
+                        n_sentinel_params += 1;
+                    }
+                    for l in ls {
+                        let want = format!("{k}#{pn}={l}");
+                        if !table_names.iter().any(|n| *n == want) {
+                            sentinel_missing.push(want);
+                        }
+                    }
+                }
+            }
+        }
+    }
+    let n_sentinel_entries = tab_sel_count;
     let n_shape_entries = table_names.iter().filter(|n| n.contains("#eq") || n.contains("#len0")).count();
     let mut n_ladder_cases = 0usize;
     for l in lad {
@@ -1178,7 +1453,13 @@ fn c09(args: &Args) -> Report {
     for m in &shape_missing {
         r.cap(format!("wrapper {m}: the source scan says it takes two descriptors/paths (#eq) or a slice (#len0) but the table has no such argument-shape entry"));
     }
-    if !missing.is_empty() || !ambiguous.is_empty() || !slice_missing.is_empty() || !shape_missing.is_empty() {
+    for m in &sentinel_missing {
+        r.cap(format!("sentinel entry {m} is missing (scalar parameter found by the signature scan, special value not run)"));
+    }
+    for t in &unknown_types {
+        r.cap(format!("parameter {t}: type not classified in labels_for() — decide its special values (or that it has none)"));
+    }
+    if !missing.is_empty() || !ambiguous.is_empty() || !slice_missing.is_empty() || !shape_missing.is_empty() || !sentinel_missing.is_empty() || !unknown_types.is_empty() {
         r.note("machinery-failure");
     }
     if SCANNED.len() < 60 {
@@ -1198,6 +1479,9 @@ fn c09(args: &Args) -> Report {
          ARGUMENT SHAPES: {n_shape_entries} of the entries repeat the full sweep with EQUAL arguments (#eq: old == new descriptor, same path twice, src fd == dst fd, epoll fd == watched fd, rem == req) for every scanned wrapper \
          with two descriptor or two path parameters (+ setpgid, nanosleep), and with ZERO-LENGTH buffers / empty vectors / zero counts (#len0) for every scanned wrapper with a slice parameter (+ sendmsg, recvmsg, listen, futex_wake, io_uring_enter, copy_file_range). \
          Every issue of every case must be the system call the entry names (else unexpected-syscall). \
+         SENTINELS: {n_sentinel_entries} generated entries `<wrapper>#<param>=<label>` repeat the full sweep with ONE scalar parameter ({n_sentinel_params} parameters, taken from the signature scan in build.rs) set to each special value of its type: \
+         i32/PidT/OffT {{-1,0,MAX,MIN}}, u32/u64/usize/UidT/GidT {{0,1,MAX}}, bool, Fd/NonNegativeI32 {{0,MAX}}, NonZeroUsize {{1,MAX}}, bit-flag types {{empty, all bits}}, Option {{None, Some(0/zero), Some(MAX)}}, every variant of the small enums, \
+         ClockId raw -1/MAX, null/non-null argv/envp, TimeSpec zero/max; an unclassified parameter type or an invocation that ignores its selector is a machinery failure. \
          ARGUMENT-SIZE LADDER: {n_ladder} invocations of wrappers taking a slice / count / length (every scanned wrapper with a slice parameter, plus copy_file_range, mmap, munmap, listen, futex_wake, io_uring_enter, sendmsg/recvmsg iov and control sizes), \
          each with every size in {:?} x every answer in {{0, 1, size, -EINVAL, -EINTR, -EAGAIN, i32::MAX (numeric results)}}: one issue, result = decoding of that answer, pointer and count given to the kernel = the caller's. \
          Each (entry, answer script) is generated exactly once; every case is non-trivial (one real wrapper execution through the seam). Oracle: Err ⇔ v∈[-4095,-1] with errno −v; else Ok with v unchanged \
@@ -1211,6 +1495,8 @@ fn c09(args: &Args) -> Report {
         if thorough { "0..=2100, 4095..=4097, 5000, 65535..=65537, 2^20-1..=2^20+1".to_string() } else { format!("{:?}", ladder_sizes(false)) }
     );
     r.bound("argument_shape_entries", n_shape_entries);
+    r.bound("sentinel_entries", n_sentinel_entries);
+    r.bound("sentinel_parameters", n_sentinel_params);
     r.bound("ladder_entries", n_ladder);
     r.bound("ladder_cases", n_ladder_cases);
     r.bound("ebusy_run_lengths", json!(EBUSY_KS));
@@ -1233,6 +1519,7 @@ fn c09(args: &Args) -> Report {
     r.sample(json!({"op":"process::execve","v":"-2","expect":"Err(errno 2), one issue"}));
     r.sample(json!({"op":"unistd::open","v":"2147483647","expect":"Ok(fd 2147483647)"}));
     r.sample(json!({"op":"unistd::dup3","v":"-16x128,0","expect":"Err(EBUSY) after giving up at some EBUSY, or 129 issues and Ok; never Ok after only EBUSY answers"}));
+    r.sample(json!({"op":"select::epoll_wait#timeout_millis=-1","v":"4","expect":"one EPOLL_PWAIT with timeout -1, Ok(4)"}));
     r.sample(json!({"op":"unistd::dup2#eq","v":"1","expect":"one DUP3 (no other system call), Ok(())"}));
     r.sample(json!({"op":"unistd::writev","n":1025,"v":"1","expect":"one WRITEV with the caller's pointer and count 1025, Ok(1)"}));
     r.sample(json!({"op":"unistd::lseek","v":"9223372036854775807","expect":"Ok(i64::MAX)"}));
